@@ -114,6 +114,8 @@ class Server(object):
         '''
         Subscribe a connection to a channel
         '''
+        if chan in source.active_subscriptions:
+            return
         SUBSCRIPTIONS.labels(source.ak, chan).inc()
         self.subscriptions[chan].append(source)
         source.active_subscriptions.add(chan)
@@ -122,8 +124,9 @@ class Server(object):
         '''
         Unsubscribe a connection from a channel
         '''
-        if chan in source.active_subscriptions:
-            source.active_subscriptions.remove(chan)
+        if chan not in source.active_subscriptions:
+            return
+        source.active_subscriptions.remove(chan)
         if source in self.subscriptions[chan]:
             self.subscriptions[chan].remove(source)
         SUBSCRIPTIONS.labels(source.ak, chan).dec()
